@@ -1,0 +1,10 @@
+//go:build verif && verifenc
+
+package datamatrix
+
+// VerifEncodeText exposes the data codewords produced by the ASCII
+// encodation, padded with extraPad pad codewords, to the conformance harness.
+func VerifEncodeText(content string, extraPad int) []byte {
+	data := encodeText(content)
+	return addPadding(data, len(data)+extraPad)
+}
